@@ -658,3 +658,111 @@ class MayThrow(object):
                 break
         self.memo[u] = r
         return r
+
+
+# ---------------------------------------------------------------------------------------------
+# "what runs after this operation on the way out" - normal and exceptional exits of one function
+# ---------------------------------------------------------------------------------------------
+def exit_coverage(facts, summ, fn, op_pred, pred, key):
+    """An operation (element of fn, or of a body lambda handed to try_call in fn, satisfying op_pred(g, pos, elem)) is followed
+    by an epilogue (an element satisfying pred, directly or inside a callee - may-summary `key`).  Returns
+    (n_ops, normal_ok, exc_ok, notes):
+      normal_ok - on every path that leaves fn normally after the operation the epilogue runs: it lies on every CFG path from the
+                  operation to the exit, or it is the body of a lambda that the repo's scope-exit idioms run unconditionally
+                  (try_call(..).M(lambda) where M does not dismiss its guard; a local raii_guard that is never dismissed);
+      exc_ok    - when the operation throws the epilogue still runs: one of the idioms above (dismissed or not), or a catch
+                  handler of a try enclosing the operation contains it.
+    The classification of the proxy methods is read from their code (make_raii_guard + dismiss), not from their names."""
+    def dismisses(m):
+        return bool(calls_named(m, ('dismiss',)))
+
+    def may(g):
+        return summ.may(g, key, pred)
+
+    def lambdas_of(root):
+        out = []
+        if root is None or root < 0:
+            return out
+        for x in fn.subtree(root):
+            if fn.nodes[x].get('k') == 'lambda':
+                g = facts.fns.get(fn.nodes[x].get('fn'))
+                if g is not None:
+                    out.append(g)
+        return out
+    always, on_exc = [], []       # lambdas run on every exit / on exceptional exits, with the position where they are armed
+    proxy_body_pos = {}           # body lambda uid -> position of the proxy call in fn
+    for pos, s, node, d in calls(fn):
+        cls = (d or {}).get('cls') or ''
+        if cls.endswith('try_call_proxy') and node.get('a'):
+            m = facts.fns.get(node.get('fn'))
+            if m is None or not calls_named(m, ('make_raii_guard',)):
+                continue
+            for b in lambdas_of(node.get('obj', -1)):
+                proxy_body_pos[b.u] = pos
+            for a in node['a']:
+                for g in lambdas_of(a):
+                    (on_exc if dismisses(m) else always).append((pos, g))
+    for pos, s, node in fn.stmt_elems(('decl',)):
+        for v in node['vars']:
+            if 'raii_guard' in (v.get('cls') or v.get('ty') or '') and v.get('init', -1) >= 0:
+                dis = [c for c in calls_named(fn, ('dismiss',)) if fn.n(fn.strip(c[2].get('obj', -1))).get('v') == v['v']]
+                for g in lambdas_of(v['init']):
+                    (on_exc if dis else always).append((pos, g))
+    # local lambdas referenced by name: `auto l = [&]{..}; try_call(body).on_completion(l)` - resolve variables initialised by a lambda
+    named = {}
+    for pos, s, node in fn.stmt_elems(('decl',)):
+        for v in node['vars']:
+            ls = lambdas_of(v.get('init', -1))
+            if len(ls) == 1 and 'lambda' in (v.get('ty') or ''):
+                named[v['v']] = ls[0]
+    if named:
+        for pos, s, node, d in calls(fn):
+            cls = (d or {}).get('cls') or ''
+            if not cls.endswith('try_call_proxy'):
+                continue
+            m = facts.fns.get(node.get('fn'))
+            if m is None or not calls_named(m, ('make_raii_guard',)):
+                continue
+            for x in fn.subtree(node.get('obj', -1)) if node.get('obj', -1) >= 0 else []:
+                nd = fn.nodes[x]
+                if nd.get('k') == 'var' and nd.get('v') in named:
+                    proxy_body_pos[named[nd['v']].u] = pos
+            for a in node.get('a', []):
+                for x in fn.subtree(a):
+                    nd = fn.nodes[x]
+                    if nd.get('k') == 'var' and nd.get('v') in named:
+                        (on_exc if dismisses(m) else always).append((pos, named[nd['v']]))
+    ops = []                      # (position in fn, node or None)
+    for b, i, e in fn.iter_elems():
+        if op_pred(fn, (b, i), e):
+            ops.append(((b, i), fn.nodes[e] if isinstance(e, int) else None))
+    for u, ppos in proxy_body_pos.items():
+        g = facts.fns[u]
+        if any(op_pred(g, (b, i), e) for b, i, e in g.iter_elems()):
+            ops.append((ppos, None))
+    notes = []
+    normal_ok = exc_ok = True
+
+    def elem_may(pos, e):
+        return summ.elem_may(fn, pos, e, key, pred)
+    for opos, onode in ops:
+        armed_always = [g for p_, g in always if may(g) and (p_ == opos or fn.can_reach(p_, opos))]
+        armed_exc = [g for p_, g in on_exc if may(g) and (p_ == opos or fn.can_reach(p_, opos))]
+        n_ok = bool(armed_always) or every_path_passes(fn, opos, elem_may)[0]
+        e_ok = bool(armed_always) or bool(armed_exc)
+        if not e_ok and onode is not None and onode.get('tr') is not None:
+            hs = [nd for nd in fn.nodes if nd and nd.get('k') == 'catch' and nd.get('try') == onode.get('tr')]
+            for h in hs:
+                if not h.get('ell'):
+                    continue
+                inside = [(pos2, s2) for pos2, s2, nd2 in fn.stmt_elems(None, reachable_only=False) if nd2.get('ca') == h.get('s')]
+                if any(elem_may(pos2, s2) for pos2, s2 in inside):
+                    e_ok = True
+        if not n_ok:
+            notes.append('after the operation at line %s a normal exit skips it' % ((onode or {}).get('ln') or fn.nodes[fn.blocks[opos[0]]['e'][opos[1]]].get('ln')))
+        if not e_ok:
+            notes.append('when the operation at line %s throws nothing runs it (no scope-exit lambda, no enclosing catch(...) handler)'
+                         % ((onode or {}).get('ln') or fn.nodes[fn.blocks[opos[0]]['e'][opos[1]]].get('ln')))
+        normal_ok = normal_ok and n_ok
+        exc_ok = exc_ok and e_ok
+    return len(ops), normal_ok, exc_ok, notes
